@@ -53,6 +53,25 @@ class TooManyPaths(Exception):
 
 NOT_HANDLED = object()
 
+# Host-implemented abstract containers (e.g. numpy object arrays holding symbolic
+# entries, used by the analyser as its own data structure): attribute access,
+# indexing, operators and bound-method calls on them are performed for real.
+HOST_TYPES: tuple = ()
+
+
+def register_host_type(t) -> None:
+    global HOST_TYPES
+    if t not in HOST_TYPES:
+        HOST_TYPES = HOST_TYPES + (t,)
+
+
+def to_host_index(idx):
+    if isinstance(idx, SliceV):
+        return slice(idx.lo, idx.hi, idx.step)
+    if isinstance(idx, tuple):
+        return tuple(to_host_index(i) for i in idx)
+    return idx
+
 
 class TopT:
     """Unknown value: absorbs every operation."""
@@ -174,6 +193,11 @@ def truth(v) -> Optional[bool]:
         return t()
     if isinstance(v, (Obj, Ext, ClassRef, Closure, BoundMethod, ModuleRef)):
         return True
+    if HOST_TYPES and isinstance(v, HOST_TYPES):
+        try:
+            return bool(v)
+        except Exception:
+            return None
     try:
         return bool(v)
     except Exception:
@@ -209,6 +233,8 @@ def _contains_top(v, depth=0) -> bool:
 
 
 def _is_abstract(v) -> bool:
+    if HOST_TYPES and isinstance(v, HOST_TYPES):
+        return False
     return not isinstance(v, _CONCRETE)
 
 
@@ -578,6 +604,12 @@ class Interp:
             r = self.hooks.store_subscript(self, obj, idx, v, t, env)
             if r is not NOT_HANDLED:
                 return
+            if HOST_TYPES and isinstance(obj, HOST_TYPES) and not _contains_top(idx):
+                try:
+                    obj[to_host_index(idx)] = v
+                except (IndexError, KeyError, TypeError, ValueError) as e:
+                    raise PathRaise(type(e).__name__, t)
+                return
             if isinstance(obj, (dict, list)) and not _contains_top(idx) and not isinstance(idx, slice):
                 try:
                     obj[idx] = v
@@ -737,6 +769,9 @@ class Interp:
     def _ev_UnaryOp(self, node, env):
         v = self.ev(node.operand, env)
         if isinstance(node.op, ast.Not):
+            pn = getattr(v, 'pqv_not', None)
+            if pn is not None:
+                return pn()
             t = truth(v)
             return TOP if t is None else (not t)
         try:
@@ -783,6 +818,8 @@ class Interp:
         for op, rn in zip(node.ops, node.comparators):
             right = self.ev(rn, env)
             r = self.compare(op, left, right, node)
+            if len(node.ops) == 1 and r is not TOP and not isinstance(r, bool):
+                return r            # abstract comparison result (term, symbolic array, ...)
             t = truth(r)
             if t is False:
                 return False
@@ -908,6 +945,11 @@ class Interp:
             return TOP if v is NOT_HANDLED else v
         if isinstance(obj, Ext):
             return Ext(f'{obj.name}.{name}')
+        if HOST_TYPES and isinstance(obj, HOST_TYPES):
+            try:
+                return getattr(obj, name)
+            except AttributeError:
+                raise PathRaise('AttributeError', node)
         if isinstance(obj, _CONCRETE):
             if _contains_top(obj) and name not in ('append', 'extend', 'insert', 'items', 'keys', 'values',
                                                    'add', 'update', 'copy', 'pop', 'get', 'setdefault'):
@@ -935,6 +977,13 @@ class Interp:
         g = getattr(obj, 'pqv_getitem', None)
         if g is not None:
             return g(idx)
+        if HOST_TYPES and isinstance(obj, HOST_TYPES):
+            if _contains_top(idx):
+                return TOP
+            try:
+                return obj[to_host_index(idx)]
+            except (IndexError, KeyError, TypeError, ValueError) as e:
+                raise PathRaise(type(e).__name__, node)
         if isinstance(obj, dict):
             if idx is TOP or _is_abstract(idx):
                 vals = list(obj.values())
@@ -1075,6 +1124,13 @@ class Interp:
         c = getattr(func, 'pqv_call', None)
         if c is not None:
             return c(*args, **kwargs)
+        if HOST_TYPES and callable(func) and isinstance(getattr(func, '__self__', None), HOST_TYPES):
+            if any(a is TOP for a in args) or any(v is TOP for v in kwargs.values()):
+                return TOP
+            try:
+                return func(*[to_host_index(a) for a in args], **kwargs)
+            except (KeyError, IndexError, ValueError, TypeError, AttributeError) as e:
+                raise PathRaise(type(e).__name__, node)
         if callable(func) and getattr(func, '__self__', None) is not None \
                 and isinstance(func.__self__, _CONCRETE):
             # bound method of a concrete builtin value (str.split, list.append, dict.items, ...)
@@ -1106,6 +1162,9 @@ class Interp:
             if b in _SAFE_BUILTINS:
                 if b == 'len' and args and hasattr(args[0], 'pqv_len'):
                     return args[0].pqv_len()
+                if b == 'bool' and len(args) == 1 and _is_abstract(args[0]):
+                    t = truth(args[0])
+                    return TOP if t is None else t
                 if any(_is_abstract(a) for a in args):
                     if b in ('tuple', 'list') and len(args) == 1 and hasattr(args[0], 'pqv_unpack'):
                         return TOP
